@@ -23,7 +23,7 @@ LEVEL = "proof"
 ENGINES = ["E5 acyc", "E2 designgen+oracle"]
 TECHNIQUE = "SMT (z3 difference logic over Int levels) on the bit-level combinational dependency graph of the Amaranth netlist IR emitted for the really elaborated design; unsat core = cycle, replayed with Amaranth's own CombinationalCycle check"
 OPTS = dict(multi=True, p_single_group=0.3, alias=True, combiner=True, fsm=True, nested_methods=True, p_fresh=0.96, fwd=True, p_before=0.5, p_conflict=0.5)
-BOUNDS = {"quick": "40 batches x 10 random specs (well-formed ones are checked) + 10 fixed compositions of library components; eager scheduler",
+BOUNDS = {"quick": "40 batches x 10 random specs (well-formed ones are checked) + 14 fixed compositions of library components; eager scheduler",
           "thorough": "400 batches x 25 random specs + the fixed compositions"}
 OUTSIDE = OUTSIDE_COMMON + ["readiness that depends on call arguments/results of other methods", "round-robin scheduler (the statement is about the default scheduler)"]
 ASSUMES = ["a design is 'well-formed' iff the spec-level oracle of vf/designgen.py finds none of the C11 defects"]
@@ -193,7 +193,53 @@ def _fixed_designs():
                 x.iface(m)
             return m
 
-    out = [("Forwarder writer/reader sharing an exclusive method", lambda: SharedResource("f")),
+    class CondValidate(Elaboratable):
+        """a condition() branch calls a method with validate_arguments; variant: the condition sits in a method that is
+        itself called conditionally (m.If / enable_call) by the transaction."""
+
+        def __init__(self, in_method, how):
+            self.in_method, self.how = in_method, how
+
+        def elaborate(self, p):
+            m = TModule()
+            req, c, en = Signal(), Signal(), Signal()
+            arg = Signal(2)
+            v = Method(i=[("d", 2)], name="validated")
+
+            @def_method(m, v, validate_arguments=lambda d: d != 3)
+            def _(d):
+                pass
+
+            def body():
+                with condition(m, nonblocking=True) as branch:
+                    with branch(c):
+                        v(m, d=arg)
+
+            if self.in_method:
+                outer = Method(name="outer")
+
+                @def_method(m, outer)
+                def _():
+                    body()
+
+                with Transaction().body(m, ready=req):
+                    if self.how == "if":
+                        with m.If(en):
+                            outer(m)
+                    elif self.how == "enable":
+                        outer(m, enable_call=en)
+                    else:
+                        outer(m)
+            else:
+                with Transaction().body(m, ready=req):
+                    body()
+            return m
+
+    out = [("condition() branch calling a validate_arguments method (in a transaction)", lambda: CondValidate(False, "plain")),
+           ("condition() branch calling a validate_arguments method (in a method)", lambda: CondValidate(True, "plain")),
+           ("condition() branch calling a validate_arguments method (in a method called under m.If)", lambda: CondValidate(True, "if")),
+           ("condition() branch calling a validate_arguments method (in a method called with enable_call)", lambda: CondValidate(True, "enable")),
+           ("Forwarder writer/reader sharing an exclusive method", lambda: SharedResource("f")),
            ("Pipe writer/reader sharing an exclusive method", lambda: SharedResource("p")),
            ("Forwarder->Pipe->BasicFifo", lambda: Chain("fpq")), ("Pipe->Forwarder->Forwarder", lambda: Chain("pff")),
            ("Forwarder->Forwarder->Pipe->FIFO", lambda: Chain("ffpa")), ("BasicFifo->Forwarder", lambda: Chain("qf")),
@@ -202,7 +248,7 @@ def _fixed_designs():
     return out
 
 
-FIXED = [None] * 10
+FIXED = [None] * 14
 
 
 def run(cfg, ctx):
@@ -252,3 +298,10 @@ def _canary_reverse_priority_order():
 
 
 CANARIES = [("scheduler uses the reversed priority order (Forwarder-style readiness then loops)", _canary_reverse_priority_order)]
+
+
+def classify(v):
+    n = v.get("name", "")
+    if "condition() branch calling a validate_arguments method (in a method called" in n and "combinational cycle" in n:
+        return "condition-branch-validate-arguments-under-conditional-call"
+    return None
